@@ -456,7 +456,9 @@ class FsRun:
             fm.taint_after(before, m, op)
 
     # ------------------------------------------------------------------ oracles
-    def replay(self, tree0, events):
+    def replay(self, tree0, events, unknown=None):
+        """Most lenient natural replay.  `unknown` (a list) collects the primary moved events whose source is not in
+        the replayed tree at that moment (the lenient replay then simply creates the destination)."""
         t = dict(tree0)
 
         def rm(p):
@@ -483,6 +485,8 @@ class FsRun:
                     for q, v in sub.items():
                         t[d + q[len(s):]] = v
                 else:
+                    if unknown is not None and not syn:
+                        unknown.append(rec["shape"])
                     t.setdefault(d, kind)
         return t
 
